@@ -170,7 +170,8 @@ func scriptStmts(c *Ctx) []string {
 		case 4:
 			out = append(out, fmt.Sprintf("for i = %d {\n\ta = a + i\n}", 1+c.R.Intn(4)))
 		case 5:
-			out = append(out, "m = macro(x, y) { quote(unquote(x) + unquote(y) * 2) }")
+			// (re)definition: one of several templates, so that a script can define the same macro twice, also in one chunk
+			out = append(out, c.R.Pick([]string{"m = macro(x, y) { quote(unquote(x) + unquote(y) * 2) }", "m = macro(x, y) { quote(unquote(x) * 100 - unquote(y)) }", "m = macro(x, y) { quote([unquote(y), unquote(x)]) }"}))
 			haveM = true
 		case 6:
 			if haveM {
@@ -185,6 +186,37 @@ func scriptStmts(c *Ctx) []string {
 		}
 	}
 	return out
+}
+
+// macroRedefinedAfterUse: some macro name is defined again in a statement that follows a statement using it
+func macroRedefinedAfterUse(stm []string) bool {
+	firstUse := map[string]int{}
+	for i, st := range stm {
+		for _, name := range []string{"m", "double", "sq", "check"} {
+			isDef := strings.HasPrefix(st, name+" = macro(")
+			if isDef {
+				if u, ok := firstUse[name]; ok && u < i {
+					return true
+				}
+				continue
+			}
+			if strings.Contains(st, name+"(") {
+				if _, ok := firstUse[name]; !ok {
+					firstUse[name] = i
+				}
+			}
+		}
+	}
+	return false
+}
+
+// evalError: evaluating the script in one go ends in an error value (EvalOne reports those only with ShowEval)
+func evalError(whole string) bool {
+	s := eval.NewState()
+	var out bytes.Buffer
+	s.Out, s.LogOut, s.NoLog = &out, &out, true
+	_, pan, e, _ := repl.EvalOne(context.Background(), s, whole, &out, repl.Options{All: true, ShowEval: true, NoColor: true})
+	return pan || len(e) > 0
 }
 
 func runSession(chunks []string) (string, string, []string) {
@@ -212,6 +244,7 @@ func sessions(c *Ctx, s *st) {
 	fixed := [][]string{
 		{"double = macro(x){quote(unquote(x)*2)}", "a = double(4)", "println(\"a =\", a)", "b = double(a)+1", "println(\"b =\", b)"},
 		{"sq = macro(x){quote(unquote(x)*unquote(x))}", "func f(n) {\n\tsq(n+1)\n}", "println(f(2))", "println(sq(3), f(4))"},
+		{"check = macro(c){quote(if !(unquote(c)) {println(\"failed\")})}", "check = macro(c){quote(if unquote(c) {println(\"ok\")} else {println(\"failed\")})}", "n = 3", "check(n > 2)", "m = n * 2", "check(m == 6)"},
 	}
 	for k := 0; k < n+len(fixed); k++ {
 		var stm []string
@@ -222,7 +255,7 @@ func sessions(c *Ctx, s *st) {
 		}
 		whole := strings.Join(stm, "\n")
 		o0, g0, e0 := runSession([]string{whole})
-		if len(e0) > 0 {
+		if len(e0) > 0 || evalError(whole) { // the property is about error-free scripts (a run-time error ends an input early)
 			c.Count("script-with-errors-skipped")
 			continue
 		}
@@ -255,7 +288,11 @@ func sessions(c *Ctx, s *st) {
 			s.splits++
 			c.Eval()
 			if o1 != o0 || g1 != g0 || len(e1) > 0 {
-				c.Fail("chunked-differs-from-whole", "SESSION "+Hx([]byte(strings.Join(chunks, "\x00"))),
+				sig := "chunked-differs-from-whole"
+				if macroRedefinedAfterUse(stm) { // the recorded finding: definitions of one input are collected before any expansion
+					sig += ":macro-redefined-after-use"
+				}
+				c.Fail(sig, "SESSION "+Hx([]byte(strings.Join(chunks, "\x00"))),
 					fmt.Sprintf("chunks=%q out %q vs %q globals %q vs %q errs %v", chunks, o1, o0, g1, g0, e1))
 			}
 		}
